@@ -157,7 +157,7 @@ func project(d protocol.RvDirective) Obs {
 func parse(role string, ins []protocol.RvInstruction, neighbours bool) (o Obs, panicAt string, panicVal string) {
 	defer func() {
 		if r := recover(); r != nil {
-			panicAt = world.TopLibFrame()
+			panicAt = normFrame(world.TopLibFrame())
 			panicVal = fmt.Sprint(r)
 		}
 	}()
@@ -181,6 +181,17 @@ func parse(role string, ins []protocol.RvInstruction, neighbours bool) (o Obs, p
 		return
 	}
 	return project(ds[idx]), "", ""
+}
+
+// normFrame keeps "<pkgdir>/<file> <func>" of a frame (the library may live in a scratch copy).
+func normFrame(f string) string {
+	parts := strings.SplitN(f, " ", 2)
+	segs := strings.Split(parts[0], "/")
+	if len(segs) > 2 {
+		segs = segs[len(segs)-2:]
+	}
+	parts[0] = strings.Join(segs, "/")
+	return strings.Join(parts, " ")
 }
 
 func member(x string, xs []string) bool {
